@@ -613,8 +613,10 @@ __CPROVER_ensures((BUILT && g_x > 0xFFFF && g_x < 0x10FFFF) ==> ENTRY == ((g_smp
 /* ================================================================== the Silf pseudo-glyph fallback */
 typedef struct Pseudo { uint32 uid; uint32 gid; } Pseudo;                                 /* Silf.h */
 typedef struct Silf { Pseudo *m_pseudos; uint16 m_numPseudo; } Silf;
-size_t g_w; const Silf *g_silf; uint16 g_pseudo_ret;
-uint16 Silf_findPseudo(const Silf *self, uint32 uid)
+size_t g_w; const Silf *g_silf; uint16 g_pseudo_ret; uint32 g_usv;
+/* the parameter type of Silf::findPseudo, copied from the definition (a narrower type would truncate scalar values) */
+/*@extract {'file':'src/Silf.cpp', 'kind':'range', 'start': r'uint16 Silf::findPseudo\(', 'end': r'\s+uid\) const', 'subs':[[r'uint16 Silf::findPseudo\(', 'typedef ', 1]], 'post':' pseudo_uid_t;\n'}@*/
+uint16 Silf_findPseudo(const Silf *self, pseudo_uid_t uid)
 #if defined(UNIT_c13_pseudo)
 __CPROVER_requires(self == g_silf && OFF(self->m_pseudos) == 0 && OBJSZ(self->m_pseudos) == self->m_numPseudo * sizeof(Pseudo))
 __CPROVER_assigns(g_w)
@@ -626,11 +628,12 @@ __CPROVER_ensures(__CPROVER_return_value != 0 ==> (g_w < self->m_numPseudo && se
 #else
 /* other units: some 16-bit value (what unit c13_pseudo characterises), no side effect; never called on a NULL Silf */
 __CPROVER_requires(self != NULL && self == g_silf)
+__CPROVER_requires((uint32)uid == g_usv)                 /* the callee sees the whole scalar value the caller looked up */
 __CPROVER_assigns()
 __CPROVER_ensures(__CPROVER_return_value == g_pseudo_ret);
 #endif
 
-/*@extract {'file':'src/Silf.cpp', 'sig': r'uint16 Silf::findPseudo\(uint32 uid\) const', 'emit':'uint16 Silf_findPseudo(const Silf *self, uint32 uid)',
+/*@extract {'file':'src/Silf.cpp', 'sig': r'uint16 Silf::findPseudo\(\w+ uid\) const', 'emit':'uint16 Silf_findPseudo(const Silf *self, pseudo_uid_t uid)',
    'self':['m_pseudos','m_numPseudo'], 'brace_loops':[1], 'inserts':[[1, 'g_w = (size_t)i;']],
    'loops':{1: """__CPROVER_assigns(i, g_w)
                   __CPROVER_loop_invariant(i >= 0 && i <= self->m_numPseudo && (g_j >= (size_t)i || self->m_pseudos[g_j].uid != uid))
@@ -649,7 +652,7 @@ __CPROVER_assigns() __CPROVER_ensures(__CPROVER_return_value == g_cmap_ret);
 static const Cmap *Face_cmap(const Face *f) { return f->m_cmap; }                          /* Face::cmap(): return *m_cmap */
 
 /*@extract {'file':'src/Face.cpp', 'sig': r'const Silf \*Face::chooseSilf\(uint32 script\) const', 'emit':'static const Silf *Face_chooseSilf(const Face *self, uint32 script)', 'self':['m_numSilf','m_silfs']}@*/
-/*@extract {'file':'src/Face.cpp', 'sig': r'uint16 Face::findPseudo\(uint32 uid\) const', 'emit':'static uint16 Face_findPseudo(const Face *self, uint32 uid)',
+/*@extract {'file':'src/Face.cpp', 'sig': r'uint16 Face::findPseudo\(\w+ uid\) const', 'emit':'static uint16 Face_findPseudo(const Face *self, uint32 uid)',
    'subs':[[r'm_silfs\[0\]\.findPseudo\(', 'Silf_findPseudo(&m_silfs[0], ', 1]], 'self':['m_numSilf','m_silfs']}@*/
 
 int gr_face_is_char_supported(const gr_face *pFace, uint32 usv, uint32 script)
@@ -971,8 +974,9 @@ void h_fallback(void)
     f->m_numSilf = nondet_u16();
     f->m_silfs = malloc(f->m_numSilf * sizeof(Silf)); __CPROVER_assume(f->m_silfs != NULL);
     g_silf = f->m_silfs; g_cmap_ret = nondet_u16(); g_pseudo_ret = nondet_u16();
-    if (nondet_bool()) { __CPROVER_assume(f->m_numSilf >= 1); int r = gr_face_is_char_supported(f, nondet_uint(), nondet_uint()); (void)r; }
-    else               { uint16 g = initial_gid(f->m_cmap, f, nondet_uint()); (void)g; }
+    g_usv = nondet_uint();
+    if (nondet_bool()) { __CPROVER_assume(f->m_numSilf >= 1); int r = gr_face_is_char_supported(f, g_usv, nondet_uint()); (void)r; }
+    else               { uint16 g = initial_gid(f->m_cmap, f, g_usv); (void)g; }
     CANARY();
 }
 #endif
